@@ -139,14 +139,14 @@ def _scan_harnesses():
     from vf import kani as KN
     out = {}
     for mod, n in KN.harness_names():
-        m = _re.match(r'([a-z0-9]+?)_(enc|dec|ks|buf\w*|[a-z0-9]+)_b(\d+)w(\d+)_n(\d+)(?:_(ip|b2b))?', n)
-        info = {'units': [], 'props': [], 'bounds': n, 'kani': True}
+        m = _re.match(r'([a-z0-9]+?)_(enc|dec|ks|buf\w*|[a-z0-9]+)_b(\d+)w(\d+)_n(\d+)(?:_(ip|b2b|nat))?', n)
+        info = {'units': [], 'props': [], 'bounds': n, 'kani': not n.endswith('_nat')}
         if m:
             mode = m.group(1)
             info['units'] = [_MODE_UNIT.get(mode, mode)]
             info['props'] = list(_MODE_PROPS.get(mode, []))
             info['bounds'] = '%s %s: block size %s bytes, cipher parallel width %s, %s blocks (1 block then the rest), %s; all IVs, data and cipher outputs symbolic' % (
-                mode, m.group(2), m.group(3), m.group(4), m.group(5), {'ip': 'in place', 'b2b': 'buffer to buffer', None: ''}[m.group(6)])
+                mode, m.group(2), m.group(3), m.group(4), m.group(5), {'ip': 'in place', 'b2b': 'buffer to buffer', 'nat': 'native search only', None: ''}[m.group(6)])
         if n.startswith('misc_'):
             kind = n.split('_')[1]
             rest = n[len('misc_' + kind + '_'):]
